@@ -121,6 +121,9 @@ theories/RunnerRange.vos theories/RunnerRange.vok theories/RunnerRange.required_
 theories/RunnerSelect.vo theories/RunnerSelect.glob theories/RunnerSelect.v.beautified theories/RunnerSelect.required_vo: theories/RunnerSelect.v theories/Base.vo theories/Status.vo theories/Rollup.vo theories/RollupProofs.vo theories/Runner.vo theories/RunnerSteps.vo theories/RunnerQuiet.vo gen/StatusTable.vo
 theories/RunnerSelect.vio: theories/RunnerSelect.v theories/Base.vio theories/Status.vio theories/Rollup.vio theories/RollupProofs.vio theories/Runner.vio theories/RunnerSteps.vio theories/RunnerQuiet.vio gen/StatusTable.vio
 theories/RunnerSelect.vos theories/RunnerSelect.vok theories/RunnerSelect.required_vos: theories/RunnerSelect.v theories/Base.vos theories/Status.vos theories/Rollup.vos theories/RollupProofs.vos theories/Runner.vos theories/RunnerSteps.vos theories/RunnerQuiet.vos gen/StatusTable.vos
+theories/RunnerSelectMore.vo theories/RunnerSelectMore.glob theories/RunnerSelectMore.v.beautified theories/RunnerSelectMore.required_vo: theories/RunnerSelectMore.v theories/Base.vo theories/Status.vo theories/Rollup.vo theories/RollupProofs.vo theories/Runner.vo theories/RunnerSteps.vo theories/RunnerQuiet.vo theories/RunnerSelect.vo theories/RunnerLocal.vo gen/StatusTable.vo
+theories/RunnerSelectMore.vio: theories/RunnerSelectMore.v theories/Base.vio theories/Status.vio theories/Rollup.vio theories/RollupProofs.vio theories/Runner.vio theories/RunnerSteps.vio theories/RunnerQuiet.vio theories/RunnerSelect.vio theories/RunnerLocal.vio gen/StatusTable.vio
+theories/RunnerSelectMore.vos theories/RunnerSelectMore.vok theories/RunnerSelectMore.required_vos: theories/RunnerSelectMore.v theories/Base.vos theories/Status.vos theories/Rollup.vos theories/RollupProofs.vos theories/Runner.vos theories/RunnerSteps.vos theories/RunnerQuiet.vos theories/RunnerSelect.vos theories/RunnerLocal.vos gen/StatusTable.vos
 theories/RunnerSteps.vo theories/RunnerSteps.glob theories/RunnerSteps.v.beautified theories/RunnerSteps.required_vo: theories/RunnerSteps.v theories/Base.vo theories/Status.vo theories/Rollup.vo theories/Runner.vo gen/StatusTable.vo
 theories/RunnerSteps.vio: theories/RunnerSteps.v theories/Base.vio theories/Status.vio theories/Rollup.vio theories/Runner.vio gen/StatusTable.vio
 theories/RunnerSteps.vos theories/RunnerSteps.vok theories/RunnerSteps.required_vos: theories/RunnerSteps.v theories/Base.vos theories/Status.vos theories/Rollup.vos theories/Runner.vos gen/StatusTable.vos
@@ -190,9 +193,9 @@ props/C07.vos props/C07.vok props/C07.required_vos: props/C07.v theories/Base.vo
 props/C08.vo props/C08.glob props/C08.v.beautified props/C08.required_vo: props/C08.v theories/Base.vo theories/UStr.vo theories/TagExpr.vo theories/TagExprProofs.vo
 props/C08.vio: props/C08.v theories/Base.vio theories/UStr.vio theories/TagExpr.vio theories/TagExprProofs.vio
 props/C08.vos props/C08.vok props/C08.required_vos: props/C08.v theories/Base.vos theories/UStr.vos theories/TagExpr.vos theories/TagExprProofs.vos
-props/C09.vo props/C09.glob props/C09.v.beautified props/C09.required_vo: props/C09.v theories/Base.vo theories/Status.vo theories/Rollup.vo theories/Runner.vo theories/RunnerSteps.vo theories/RunnerQuiet.vo theories/RunnerSelect.vo theories/RunnerEq.vo gen/StatusTable.vo
-props/C09.vio: props/C09.v theories/Base.vio theories/Status.vio theories/Rollup.vio theories/Runner.vio theories/RunnerSteps.vio theories/RunnerQuiet.vio theories/RunnerSelect.vio theories/RunnerEq.vio gen/StatusTable.vio
-props/C09.vos props/C09.vok props/C09.required_vos: props/C09.v theories/Base.vos theories/Status.vos theories/Rollup.vos theories/Runner.vos theories/RunnerSteps.vos theories/RunnerQuiet.vos theories/RunnerSelect.vos theories/RunnerEq.vos gen/StatusTable.vos
+props/C09.vo props/C09.glob props/C09.v.beautified props/C09.required_vo: props/C09.v theories/Base.vo theories/Status.vo theories/Rollup.vo theories/Runner.vo theories/RunnerSteps.vo theories/RunnerQuiet.vo theories/RunnerSelect.vo theories/RunnerEq.vo theories/RunnerSelectMore.vo gen/StatusTable.vo
+props/C09.vio: props/C09.v theories/Base.vio theories/Status.vio theories/Rollup.vio theories/Runner.vio theories/RunnerSteps.vio theories/RunnerQuiet.vio theories/RunnerSelect.vio theories/RunnerEq.vio theories/RunnerSelectMore.vio gen/StatusTable.vio
+props/C09.vos props/C09.vok props/C09.required_vos: props/C09.v theories/Base.vos theories/Status.vos theories/Rollup.vos theories/Runner.vos theories/RunnerSteps.vos theories/RunnerQuiet.vos theories/RunnerSelect.vos theories/RunnerEq.vos theories/RunnerSelectMore.vos gen/StatusTable.vos
 props/C10.vo props/C10.glob props/C10.v.beautified props/C10.required_vo: props/C10.v theories/Base.vo theories/Select.vo theories/SelectProofs.vo
 props/C10.vio: props/C10.v theories/Base.vio theories/Select.vio theories/SelectProofs.vio
 props/C10.vos props/C10.vok props/C10.required_vos: props/C10.v theories/Base.vos theories/Select.vos theories/SelectProofs.vos
